@@ -71,7 +71,9 @@ fn item(rng: &mut Rng, lv: u8, q: char) -> (String, bool, &'static str) {
             let c = *rng.pick(&["q", "c", "%", "(", "é", "U", "X", " "]);
             (format!("\\{c}"), lv < 2, "unknown escape")
         }
-        14 => (rng.pick(&["\n", "\r"]).to_string(), false, "raw line break"),
+        // a raw line break ends the string (the plain char in front keeps it from being swallowed by a preceding
+        // `\z` or completing an escaped line break pair)
+        14 => (format!("k{}", rng.pick(&["\n", "\r"])), false, "raw line break"),
         _ => (rng.pick(PLAIN).to_string(), true, "plain"),
     }
 }
